@@ -84,6 +84,7 @@ type IndexScenario struct{}
 func (IndexScenario) Name() string { return "index" }
 
 var idxKeys = []string{"a", "ab", "abc", "b", "ba", "a:b", "", "", "B", "a b", "aÿ", "aÿÿ", "bÿ"}
+
 // (p1 and ep begin with characters of the store prefix "pre.")
 var idxIDs = []string{"1", "2", "33", "4.4", "a", "ab", "p1", "ep"}
 
